@@ -300,6 +300,10 @@ type breaker struct {
 	// used to identify the range of runes between the previous and current
 	// candidate.
 	previousWordBreak breakOption
+	// beforePreviousWordBreak is the value of previousWordBreak before the last call to nextWordBreak,
+	// and lastWordIsNew is true if that call has fetched a new candidate: see rejectWordOption.
+	beforePreviousWordBreak breakOption
+	lastWordIsNew           bool
 	// isUnusedWord indicates that the unusedBreak field is valid.
 	isUnusedWord        bool
 	unusedGraphemeBreak breakOption
@@ -355,6 +359,7 @@ func (b *breaker) nextGraphemeRaw() (option breakOption, ok bool) {
 // on a UAX#14 boundary if any. If it returns false, there are no more candidates.
 func (l *breaker) nextWordBreak() (breakOption, bool) {
 	var option breakOption
+	l.lastWordIsNew = false
 	if l.isUnusedWord {
 		option = l.unusedWordBreak
 		l.isUnusedWord = false
@@ -364,10 +369,24 @@ func (l *breaker) nextWordBreak() (breakOption, bool) {
 		if !breakOk {
 			return option, false
 		}
+		l.beforePreviousWordBreak = l.previousWordBreak
 		l.previousWordBreak = l.unusedWordBreak
 		l.unusedWordBreak = option
+		l.lastWordIsNew = true
 	}
 	return option, true
+}
+
+// rejectWordOption is called when the candidate returned by nextWordBreak can not be used
+// (it lies inside a glyph cluster): it has not been tried, so the grapheme boundaries up to it
+// must still be considered with the next candidate.
+func (l *breaker) rejectWordOption() {
+	if !l.lastWordIsNew {
+		return
+	}
+	l.unusedWordBreak = l.previousWordBreak
+	l.previousWordBreak = l.beforePreviousWordBreak
+	l.lastWordIsNew = false
 }
 
 func (l *breaker) markWordOptionUnused() {
@@ -1061,6 +1080,9 @@ func (l *LineWrapper) wrapNextLine(config lineConfig) (done bool) {
 		}
 		switch result, candidateRun := l.processBreakOption(option, config); result {
 		case breakInvalid:
+			if option.breakAtRune >= l.lineStartRune { // refused because of the glyph clusters
+				l.breaker.rejectWordOption()
+			}
 			l.restore()
 			continue
 		case fits:
